@@ -101,6 +101,7 @@ def case_kernel(log, sector, order, method, scheme, kind="general", shape="compl
     singlet = sector == "singlet"
     log.encode(qk.quad_ker_qcd, xp.gamma_variation, ex.non_singlet_variation, ex.singlet_variation, ns.dispatcher, sg.dispatcher)
     rp = (MOD, "replay_kernel", {"sector": sector, "order": order, "method": method, "scheme": scheme, "diag": kind == "diag"})
+    log.register_replay("fallback:replay_kernel", rp, _sampler)
     key = "%s.%s.%s:%d" % (sector, scheme, method, order)
     what = "%s %s %s order %d" % (sector, scheme, method, order)
 
@@ -164,6 +165,7 @@ def case_unit_ratio(log, sector, order, method, scheme):
     singlet = sector == "singlet"
     log.encode(qk.quad_ker_qcd)
     rp = (MOD, "replay_unit", {"sector": sector, "order": order, "method": method, "scheme": scheme})
+    log.register_replay("fallback:replay_unit", rp, _sampler)
 
     def run():
         a0, a1 = SR.var("a0"), SR.var("a1")
